@@ -336,7 +336,9 @@ fn trace_tail_head(out: &RunOut, n: usize) -> Vec<String> {
 
 /// Stable signature for matching known findings: monitor plus a normalised message class.
 pub fn finding_signature(v: &Violation) -> String {
-    let class = if v.message.starts_with("readback: storage(") {
+    let class = if v.message.starts_with("bundle: contracts differ") {
+        "bundle-contracts"
+    } else if v.message.starts_with("readback: storage(") {
         "storage-slot"
     } else if v.message.starts_with("readback: basic(") {
         "account"
